@@ -5,10 +5,12 @@ import H2V.Model.ConnCounts
   and of the state containers of `prioritize.rs`/`send.rs`/`recv.rs`/`streams.rs` (`Prioritize`,
   `Send`, `Recv`, `Actions`, `Inner` — called `Streams` here because `Inner` is the state enum).
 
-  * a stream is identified by its id (ids are never reused, so the slab index + ABA guard of
-    `store::Key` collapse into the id); `Store.slab` is the slab (all streams that still exist),
-    `Store.ids` is the `IndexMap` (the streams the protocol still knows), in index order, with
-    `swap_remove` semantics for `unlink`;
+  * a stream entry is identified by its `key`, a number handed out by `Store.insert` and never
+    reused (it stands for `store::Key` = slab index + stream id; the slab reuses indices, but nothing
+    observable depends on the index itself).  The stream id is NOT a key: h2 can hold two slab
+    entries with the same stream id (see ConnNOTES.md, "RST_STREAM twice").  `Store.slab` is the slab
+    (all entries that still exist), `Store.ids` is the `IndexMap` stream id -> key (the streams the
+    protocol still knows), in index order, with `swap_remove` semantics for `unlink`;
   * the intrusive queues are lists of ids; the `is_pending_*` flags stay on the stream and `push`
     looks at the flag exactly like `Queue::push`;
   * `buffer::Deque`s are lists of frame descriptors stored in the stream; the slab sizes the harness
@@ -48,6 +50,7 @@ inductive ContentLength where
 
 /-- `stream::Stream` -/
 structure Stream where
+  key : Nat := 0
   id : Nat
   state : State := {}
   isCounted : Bool := false
@@ -57,6 +60,7 @@ structure Stream where
   requestedSendCapacity : Nat := 0
   bufferedSendData : Nat := 0
   sendTask : Option String := none
+  openTask : Option String := none
   pendingSend : List SFrame := []
   isPendingSendCapacity : Bool := false
   sendCapacityInc : Bool := false
@@ -108,9 +112,12 @@ def capacity (s : Stream) (maxBufferSize : Nat) : Nat :=
 
 /-- `Stream::notify_send`: the stream and the tags woken -/
 def notifySend (s : Stream) : Stream × List String :=
-  match s.sendTask with
-  | some t => ({ s with sendTask := none }, [t])
-  | none => (s, [])
+  let (s, w1) := match s.sendTask with
+    | some t => ({ s with sendTask := none }, [t])
+    | none => (s, [])
+  match s.openTask with
+  | some t => ({ s with openTask := none }, w1 ++ [t])
+  | none => (s, w1)
 
 /-- `Stream::notify_recv` -/
 def notifyRecv (s : Stream) : Stream × List String :=
@@ -159,6 +166,9 @@ def ensureContentLengthZero (s : Stream) : Bool :=
   | .remaining _ => false
   | _ => true
 
+/-- `Stream::wait_open(cx)` -/
+def waitOpen (s : Stream) (tag : String) : Stream := { s with openTask := some tag }
+
 /-- `Stream::wait_send(cx)` -/
 def waitSend (s : Stream) (tag : String) : Stream := { s with sendTask := some tag }
 
@@ -175,27 +185,35 @@ end Stream
 /-- `store::Store` -/
 structure Store where
   slab : List Stream := []
-  ids : List Nat := []
+  ids : List (Nat × Nat) := []      -- (stream id, key), in `IndexMap` index order
+  nextKey : Nat := 0
   deriving Repr
 
 namespace Store
 
 /-- the slab entry behind a key (`Index<Key>`; a dangling key panics in the Rust) -/
-def get? (st : Store) (id : Nat) : Option Stream := st.slab.find? (·.id == id)
+def get? (st : Store) (k : Nat) : Option Stream := st.slab.find? (·.key == k)
 
-/-- `Store::find_mut(id).is_some()` / `find_entry` is `Occupied` -/
-def contains (st : Store) (id : Nat) : Bool := st.ids.contains id
+/-- `Store::find_mut(id)` / `find_entry(id)`: the key the id map holds for a stream id -/
+def findKey? (st : Store) (id : Nat) : Option Nat := (st.ids.find? (·.1 == id)).map (·.2)
+
+def contains (st : Store) (id : Nat) : Bool := (st.findKey? id).isSome
 
 def set (st : Store) (s : Stream) : Store :=
-  { st with slab := st.slab.map fun x => if x.id == s.id then s else x }
+  { st with slab := st.slab.map fun x => if x.key == s.key then s else x }
 
-/-- `Store::insert` / `VacantEntry::insert` -/
-def insert (st : Store) (s : Stream) : Store :=
-  { slab := st.slab ++ [s], ids := st.ids ++ [s.id] }
+/-- `Store::insert` / `VacantEntry::insert`: the store and the new key.
+    (`Store::insert` asserts that the id was not mapped; `IndexMap::insert` on a mapped id would
+    replace the value in place — modelled that way, the assert is checked by the caller.) -/
+def insert (st : Store) (s : Stream) : Store × Nat :=
+  let k := st.nextKey
+  let ids := if st.ids.any (·.1 == s.id) then st.ids.map fun e => if e.1 == s.id then (s.id, k) else e
+             else st.ids ++ [(s.id, k)]
+  ({ slab := st.slab ++ [{ s with key := k }], ids := ids, nextKey := k + 1 }, k)
 
-/-- `IndexMap::swap_remove`: the last entry takes the place of the removed one -/
-def swapRemove (ids : List Nat) (id : Nat) : List Nat :=
-  match ids.idxOf? id with
+/-- `IndexMap::swap_remove(id)`: the last entry takes the place of the removed one -/
+def swapRemove (ids : List (Nat × Nat)) (id : Nat) : List (Nat × Nat) :=
+  match ids.findIdx? (·.1 == id) with
   | none => ids
   | some i =>
     match ids.getLast? with
@@ -204,18 +222,18 @@ def swapRemove (ids : List Nat) (id : Nat) : List Nat :=
       let init := ids.dropLast
       if i + 1 = ids.length then init else init.set i last
 
-/-- `Ptr::unlink` -/
+/-- `Ptr::unlink`: removes the id-map entry of the *stream id* (whatever key it maps to) -/
 def unlink (st : Store) (id : Nat) : Store := { st with ids := swapRemove st.ids id }
 
 /-- `Ptr::remove` (slab removal) -/
-def remove (st : Store) (id : Nat) : Store := { st with slab := st.slab.filter (·.id != id) }
+def remove (st : Store) (k : Nat) : Store := { st with slab := st.slab.filter (·.key != k) }
 
 end Store
 
 /-- `prioritize::InFlightData` -/
 inductive InFlightData where
   | nothing
-  | dataFrame (sid : Nat)
+  | dataFrame (key : Nat)
   | drop
   deriving Repr, DecidableEq
 
@@ -316,20 +334,20 @@ def notifyTask (s : Streams) : Streams :=
   | none => s
 
 /-- `store.resolve(key)` then deref; a dangling key (a panic in the Rust) yields a blank stream -/
-def stream (s : Streams) (id : Nat) : Stream := (s.store.get? id).getD { id := id }
+def stream (s : Streams) (k : Nat) : Stream := (s.store.get? k).getD { key := k, id := 0 }
 
 def setStream (s : Streams) (st : Stream) : Streams := { s with store := s.store.set st }
 
 def modStream (s : Streams) (id : Nat) (f : Stream → Stream) : Streams :=
   match s.store.get? id with
   | some st => s.setStream (f st)
-  | none => s.panic s!"dangling store key for stream_id={id}"
+  | none => s.panic s!"dangling store key {id}"
 
 /-- apply a stream method that may wake tasks -/
 def modStreamW (s : Streams) (id : Nat) (f : Stream → Stream × List String) : Streams :=
   match s.store.get? id with
   | some st => let (st', w) := f st; (s.setStream st').wake w
-  | none => s.panic s!"dangling store key for stream_id={id}"
+  | none => s.panic s!"dangling store key {id}"
 
 def prio (s : Streams) : Prioritize := s.actions.send.prioritize
 def modPrio (s : Streams) (f : Prioritize → Prioritize) : Streams :=
@@ -395,7 +413,7 @@ def incNumRecvStreams (s : Streams) (id : Nat) : Streams :=
 /-- `Counts::dec_num_streams(stream)` -/
 def decNumStreams (s : Streams) (id : Nat) : Streams :=
   let s := if (s.stream id).isCounted then s else s.panic "assertion failed: stream.is_counted"
-  if s.counts.isLocalInit id then
+  if s.counts.isLocalInit (s.stream id).id then
     let s := if s.counts.numSendStreams > 0 then s else s.panic "assertion failed: self.num_send_streams > 0"
     (s.modCounts fun c => { c with numSendStreams := c.numSendStreams - 1 }).modStream id fun st => { st with isCounted := false }
   else
@@ -409,7 +427,7 @@ def transitionAfter (s : Streams) (id : Nat) (isResetCounted : Bool) : Streams :
     if st.isClosed then
       let s :=
         if !st.isPendingResetExpiration then
-          let s := { s with store := s.store.unlink id }
+          let s := { s with store := s.store.unlink st.id }
           if isResetCounted then s.modCountsA "self.num_local_reset_streams > 0" Counts.decNumResetStreams else s
         else s
       if !st.state.isScheduledReset && st.isCounted then s.decNumStreams id else s
